@@ -5,12 +5,14 @@
 
 #include "c16.c"
 #include "c17.c"
+#include "c14.c"
 
 int main(int argc,char **argv){
   if(argc<2){ fprintf(stderr,"usage: vharn <stream>\n"); return 2; }
   setvbuf(stdout,NULL,_IOFBF,1<<20);
   if(!strcmp(argv[1],"c16")) return c16_main(argc-1,argv+1);
   if(!strcmp(argv[1],"c17")) return c17_main(argc-1,argv+1);
+  if(!strcmp(argv[1],"c14")) return c14_main(argc-1,argv+1);
   fprintf(stderr,"vharn: unknown stream %s\n",argv[1]);
   return 2;
 }
